@@ -125,6 +125,12 @@ def _classify_ext_diff(case, obs, diffs):
         # recorded defect (C12 copy-shares-metadata-dict): a copy shares its source's metadata dict; assigning metadata on one
         # of them updates the dict in memory for both but is written for that one only
         return "copy-shares-metadata-dict"
+    if all(x.get("fields") == ["values"] and x["live"].get("values") == [] and x["reopened"].get("values") is None for x in diffs) \
+            and any(o["op"] == "bad_add" and o["how"] == "empty_text" and st["info"].get("raised") for o, st in zip(case["ops"], obs["steps"])):
+        # recorded defect (C07 text-empty-unwritable): add_data with an empty text array raises IndexError in
+        # H5Writer.write_data_values AFTER the entity was created and linked; the live object keeps a data child holding [],
+        # the file has the node without values
+        return "text-empty-unwritable"
     type_fields = {"cls", "primitive", "type_name", "values", "type"}
     if all("fields" in x and set(x["fields"]) <= type_fields for x in diffs):
         uids = {x["uid"] for x in diffs}
